@@ -263,6 +263,12 @@ impl Hypergeometric {
             let p2 = p1 + k_l / lambda_l;
             let p3 = p2 + k_r / lambda_r;
 
+            // For very large populations the log-factorials above cancel with an absolute
+            // error far above one and `k_l` or `k_r` overflows: sampling would panic.
+            if !p3.is_finite() {
+                return Err(Error::PopulationTooLarge);
+            }
+
             SamplingMethod::RejectionAcceptance {
                 m,
                 a,
